@@ -27,8 +27,8 @@ SOON = {"sync", "ret", "fail", "block", "stop0", "stop1"}
 START = {"st", "stfail"}
 GATED = {"block", "st"}
 NTHREADS = 3
-STEP_TIMEOUT = 10.0     # a step that should complete (call returns, cancel returns) - else "stuck"
-SETTLE_TIMEOUT = 8.0    # a future that should become done / the portal exit that should complete
+STEP_TIMEOUT = 8.0      # a step that should complete (call returns, cancel returns) - else "stuck"
+SETTLE_TIMEOUT = 6.0    # a future that should become done / the portal exit that should complete
 PING_HOPS = 8
 
 
